@@ -4,7 +4,34 @@ import json, os
 HERE = os.path.dirname(os.path.dirname(os.path.abspath(__file__)))
 props = [json.loads(l) for l in open(os.path.join(HERE, 'properties.jsonl'))]
 
+KERNEL_NOTE = ('real instead of float arithmetic; decimal literals within 5e-14; table functions used through their C10 contracts; '
+               'scipy coo/csr duplicate-summing and make_symmetric mirroring assumed (A4); the .pyx -> ast extraction (A5); the prebuilt '
+               '.so cannot be rebuilt here (no Cython) so the verdict is about the source tree, binary replays are attached where they reproduce')
+
 CHECKS = {
+ 'C02': dict(
+    category='proof',
+    text=('fk0 and fk0y1y2 of the plate, w-only plate, cylindrical and conical kernels are extracted mechanically from the .pyx on every run and '
+          'executed symbolically for generic loop indices (i,j,k,l), symbolic m,n, geometry, laminate, 24 edge flags, sub-interval and offsets; each '
+          'emitted value is proved equal to the Hessian entry of the Donnell CLT strain energy of the package\'s own series (spec built from strain '
+          'operators and exact Bardell integrals), together with placement, upper-triangle completeness, slot capacity, exception freedom and frame; '
+          'Panel.__init__/_rebuild/get_size/_get_lam_F/calc_k0 are executed symbolically over 384 shape configurations and the kernel calls they make '
+          'are proved to carry exactly the panel definition (laminate with offset, r, alpha, sub-interval, pre-load, size/offsets).'),
+    design_ref='DESIGN.md section 4 (C02)', note=KERNEL_NOTE + '; 18 known findings (cone slope sign)',
+    technique='contracts on kernels and Python methods; VCs from the ast by symbolic execution; exact normal form + z3 (LIA/NRA side obligations)'),
+ 'C03': dict(
+    category='proof',
+    text=('fkG0/fkG0y1y2 of all four panel kernels proved entry-wise equal to the Hessian of 1/2 int(Nxx w,x^2 + 2Nxy w,x w,y + Nyy w,y^2) for symbolic '
+          'indices and inputs (hence w-only, symmetric, linear in the resultants); Panel.calc_kG0 executed symbolically over its shape configurations '
+          'with argument pass-through obligations.'),
+    design_ref='DESIGN.md section 4 (C03)', note=KERNEL_NOTE + '; state-dependent route fkG_num: see evidence (unchecked items listed there)',
+    technique='contracts on kernels and Python methods; symbolic execution; exact normal form + z3'),
+ 'C04': dict(
+    category='proof',
+    text=('fkM/fkMy1y2 of all four panel kernels proved (or refuted) entry-wise against the Hessian of the kinetic energy with the reference-surface '
+          'convention of the laminate; Panel.calc_kM executed symbolically with argument pass-through obligations (offset, sub-interval, size).'),
+    design_ref='DESIGN.md section 4 (C04)', note=KERNEL_NOTE + '; 24 known findings (sign of the offset coupling)',
+    technique='contracts on kernels and Python methods; symbolic execution; exact normal form + z3'),
  'C01': dict(
     category='proof',
     text=('read_laminaprop (3/6/9-entry tuples), Lamina.rebuild, Laminate.rebuild, Laminate.calc_constitutive_matrix and read_stack are '
